@@ -11,6 +11,7 @@ Require Import Zrs.proofs.C13_Huffman.
 Require Import Zrs.model.BitIO Zrs.model.BitStream Zrs.model.HufDec Zrs.proofs.C12_Stream Zrs.proofs.C13_Stream.
 Require Import Zrs.gen.Generated Zrs.model.Headers Zrs.model.BlockDec Zrs.model.LitEnc Zrs.proofs.C13_LitSection.
 Require Import Zrs.proofs.C13_Canonical Zrs.proofs.C13_CanonCode Zrs.proofs.C13_LitAll Zrs.proofs.C13_Direct.
+Require Import Zrs.model.SeqEnc Zrs.model.FseEnc Zrs.model.WeightEnc Zrs.proofs.C12_SeqStream Zrs.proofs.C12_Desc Zrs.proofs.C13_WeightStream Zrs.proofs.C13_WeightDesc.
 Open Scope Z_scope.
 
 Theorem C13_shape_valid : forall n, 2 <= n <= 256 ->
@@ -159,6 +160,41 @@ Example C13_direct_description_example : direct_desc [2; 1; 1] = [130; 33; 16] /
   match huf_build_decoder huf_new ([130; 33; 16] ++ [7]) with ROk (t, used) => used = 3 /\ ht_weights t = [2; 1; 1] | _ => False end.
 Proof. split; [reflexivity|vm_compute; auto]. Qed.
 
+(** *** the FSE-compressed weight description
+
+    The compressor writes more than 16 weights with two interleaved FSE states sharing one table
+    ([weight_fields]: compared byte for byte with the real encoder on every run).  The decoder's two-state loop reads
+    them back in order and stops exactly when the stream is exhausted -- provided every state carries at least one bit
+    (the "avoid zero bits" option of the table builder) -- for any table that agrees with the encoder's, any 2..257
+    weights over the symbols it covers *)
+Theorem C13_two_state_weight_stream_roundtrip : forall D E syms data,
+  agree D E syms ->
+  (forall sym, In sym syms -> (1 <= es_bits (et_start E sym))%nat /\ forall idx, 0 <= idx < t_len D -> (1 <= es_bits (et_next E sym idx))%nat) ->
+  (forall sym, In sym syms -> es_base (et_start E sym) < t_len D) ->
+  (2 <= length data <= 257)%nat -> Forall (fun x => In x syms) data ->
+  let cw := stream_bytes (weight_fields E data) in
+  exists br0 s1 br1 s2 br2,
+    rbr_skip_padding (rbr_new cw) = Some br0 /\ fse_init_state D br0 = ROk (s1, br1) /\ fse_init_state D br1 = ROk (s2, br2) /\
+    fse_weights_loop (S (8 * length cw + 256)) D s1 s2 br2 [] 0 = ROk (rev data).
+Proof. exact weight_stream_roundtrip. Qed.
+
+(** the whole description: header byte (the length), FSE table description, stream -> exactly the weights written *)
+Theorem C13_fse_compressed_weight_description_roundtrip : forall t al probs d D syms data rest,
+  5 <= al <= 6 -> dist_ok al probs -> Z.of_nat (length probs) <= t_max_symbol (ht_fse t) + 1 ->
+  desc_bytes al probs = Some d -> fse_build_from_probabilities (ht_fse t) al probs = ROk D ->
+  table_wf D -> Forall (covers D) syms ->
+  (forall sym, In sym syms -> (1 <= es_bits (et_start (enc_of_dec D) sym))%nat /\
+                              forall idx, 0 <= idx < t_len D -> (1 <= es_bits (et_next (enc_of_dec D) sym idx))%nat) ->
+  (forall sym, In sym syms -> es_base (et_start (enc_of_dec D) sym) < t_len D) ->
+  (2 <= length data <= 257)%nat -> Forall (fun x => In x syms) data ->
+  let stream := stream_bytes (weight_fields (enc_of_dec D) data) in
+  let header := zlen d + zlen stream in
+  header < 128 ->
+  read_weights t (header :: d ++ stream ++ rest) = ROk (data, D, 1 + header).
+Proof. exact fse_weight_description_roundtrip. Qed.
+
+Print Assumptions C13_two_state_weight_stream_roundtrip.
+Print Assumptions C13_fse_compressed_weight_description_roundtrip.
 Print Assumptions C13_direct_weight_description_roundtrip.
 Print Assumptions C13_table_of_a_direct_description.
 Print Assumptions C13_raw_and_rle_literals_headers.
